@@ -249,6 +249,23 @@ def run(index, rep, tier):
         rep.check(ok, "R13.4", lf.qualname, "appends %s" % loops, fn_where(lf), "TreeList.get appends target[tree_offset:] (or all of it)", "TreeList._parse_and_create_from_stream iterates %s" % loops)
         rep.check(len(selc) == 1, "R13.4", lf.qualname, "collection selection", fn_where(lf), "TreeList.get selects tree_lists[collection_offset]", "TreeList.get no longer selects the collection with <read result>[collection_offset]")
 
+    # ---- R13.4 offsets forwarded unchanged by the incremental read
+    with rep.section("R13.4 offsets forwarded unchanged"):
+        af = index.function(TL + "._parse_and_add_from_stream")
+        dc = [c for c in calls_in(af.node) if call_name(c) == "_parse_and_create_from_stream"]
+        if len(dc) != 1:
+            raise AnalysisError("R13.4: TreeList._parse_and_add_from_stream does not delegate to _parse_and_create_from_stream exactly once")
+        for off in ("collection_offset", "tree_offset"):
+            if off not in af.all_params:
+                raise AnalysisError("R13.4: TreeList._parse_and_add_from_stream has no parameter %s" % off)
+            v = get_kwarg(dc[0], off)
+            rebound = [n for n in walk_no_nested(af.node) if isinstance(n, (ast.Assign, ast.AugAssign)) and any(isinstance(t, ast.Name) and t.id == off for t in (n.targets if isinstance(n, ast.Assign) else [n.target]))]
+            ok = v is not None and norm(v) == off and not rebound
+            rep.check(ok, "R13.4", af.qualname, "%s not forwarded as given: %s" % (off, norm_stmt(rebound[0])[:60] if rebound else (norm(v) if v is not None else "not passed")), fn_where(af, rebound[0] if rebound else dc[0]),
+                      "TreeList.read forwards %s unchanged to the routine TreeList.get uses" % off,
+                      "TreeList._parse_and_add_from_stream %s before delegating to _parse_and_create_from_stream: the callee tells 'offset given' from 'offset omitted' by `is None` (an explicit tree_offset selects the first collection only), so read(..., %s=0) appends a different set of trees from get(..., %s=0) on a source with several collections"
+                      % ("rebinds `%s` (`%s`)" % (off, norm_stmt(rebound[0])[:60]) if rebound else "does not pass `%s` as it was given" % off, off, off))
+
     # ---- R13.5
     with rep.section("R13.5"):
         for name in ("read_dataset", "read_tree_lists", "read_char_matrices"):
